@@ -73,11 +73,11 @@ class _PlainBase:
         self.w = _weights(w)
         self.cfg = cfg
 
-    def __call__(self, x, scale=1.0, flip=False):
+    def __call__(self, x, scale=1.0, flip=False, shift=0.0):
         y = x.astype(jnp.float32) @ self.w
         if self.cfg == 2:
             y = jnp.tanh(y)
-        return jnp.where(flip, -y, y) * scale
+        return jnp.where(flip, -y, y) * scale + shift
 
 
 @onnx_function
@@ -90,19 +90,39 @@ class PlainUnique(_PlainBase):
     pass
 
 
-def _free_impl(x, scale=1.0, flip=False):
+def _free_impl(x, scale=1.0, flip=False, shift=0.0):
     y = x.astype(jnp.float32) @ _weights(1)
-    return jnp.where(flip, -y, y) * scale
+    return jnp.where(flip, -y, y) * scale + shift
 
 
 @onnx_function
-def free_shared(x, scale=1.0, flip=False):
-    return _free_impl(x, scale, flip)
+def free_shared(x, scale=1.0, flip=False, shift=0.0):
+    return _free_impl(x, scale, flip, shift)
 
 
 @onnx_function(unique=True)
-def free_unique(x, scale=1.0, flip=False):
-    return _free_impl(x, scale, flip)
+def free_unique(x, scale=1.0, flip=False, shift=0.0):
+    return _free_impl(x, scale, flip, shift)
+
+
+# outer @onnx_function bodies (one per call site): a site with scope "body" is called from inside
+# its own outer function, so two such sites are lowered in SIBLING function-body contexts
+SITE_CALL: dict = {}
+
+
+@onnx_function
+def outer_body_1(x):
+    return SITE_CALL[1](x) + 0.0
+
+
+@onnx_function
+def outer_body_2(x):
+    return SITE_CALL[2](x) + 0.0
+
+
+@onnx_function
+def outer_body_3(x):
+    return SITE_CALL[3](x) + 0.0
 
 
 try:
@@ -113,11 +133,11 @@ try:
             self.w = _nnx.Param(jnp.asarray(_weights(w)))
             self.cfg = cfg
 
-        def __call__(self, x, scale=1.0, flip=False):
+        def __call__(self, x, scale=1.0, flip=False, shift=0.0):
             y = x.astype(jnp.float32) @ self.w.value
             if self.cfg == 2:
                 y = jnp.tanh(y)
-            return jnp.where(flip, -y, y) * scale
+            return jnp.where(flip, -y, y) * scale + shift
 
     @onnx_function
     class NnxShared(_NnxBase):
@@ -133,8 +153,8 @@ try:
         def __init__(self, w: int, cfg: int):
             self.inner = _NnxBase(w, cfg)
 
-        def __call__(self, x, scale=1.0, flip=False):
-            return self.inner(x, scale=scale, flip=flip) + 1.0
+        def __call__(self, x, scale=1.0, flip=False, shift=0.0):
+            return self.inner(x, scale=scale, flip=flip, shift=shift) + 1.0
 
     @onnx_function
     class NnxNestedShared(_NnxNestedBase):
@@ -158,11 +178,11 @@ try:
             self.w = jnp.asarray(_weights(w))
             self.cfg = cfg
 
-        def __call__(self, x, scale=1.0, flip=False):
+        def __call__(self, x, scale=1.0, flip=False, shift=0.0):
             y = x.astype(jnp.float32) @ self.w
             if self.cfg == 2:
                 y = jnp.tanh(y)
-            return jnp.where(flip, -y, y) * scale
+            return jnp.where(flip, -y, y) * scale + shift
 
     @onnx_function
     class EqxShared(_EqxBase):
